@@ -53,7 +53,17 @@ class FanOut(nfa.Spec):
 def run(ctx):
     ctx.explanation = EXPL
     ctx.assumptions = ["C01 for the broker's mailbox", "HashMap semantics"]
-    fx = ctx.facts("tokio")
+    cfgs = ["tokio"] if ctx.tier == "quick" else ["tokio", "smol", "asyncstd"]
+    for cfg in cfgs:
+        fx = ctx.facts(cfg) if cfg == "tokio" else ctx.try_facts(cfg)
+        if fx is None:
+            continue
+        ctx.cfg_tag = cfg
+        run_cfg(ctx, fx)
+    return core.finish(ctx)
+
+
+def run_cfg(ctx, fx):
     # R09.1
     o = fx.owns_of("broker::Broker", "adt")
     if ctx.require(o is not None, "R09.1", "Broker", "broker::Broker not found"):
@@ -177,6 +187,10 @@ def run(ctx):
     }
     n_ok = 0
     for e, (callee, wrap) in entries.items():
+        if e == "context::Context::<A>::publish" and fx.cfg == "smol":
+            ctx.note("observation: Context::publish is compiled only for tokio and async-std (cfg-gated)")
+            n_ok += 1
+            continue
         fam = [g for g in graph.family(fx, e) if g["kind"] == "coroutine"]
         if not ctx.require(len(fam) >= 1, "R09.4", "entry:" + e, "entry point %s not found" % e):
             continue
@@ -215,4 +229,4 @@ def run(ctx):
         n_ok += 1
         ctx.require(ok, "R09.4", "entry:" + e, "%s does not forward to the one broker actor's mailbox as expected" % e, fn=fam[0]["def"], site=t["l"], detail=det)
     ctx.floor("R09.4", "broker entry points", n_ok, 6)
-    return core.finish(ctx)
+    return None
